@@ -316,19 +316,30 @@ PROPS["C14"] = {
 
 PROPS["C03"] = {
     "lean_modules": ["Stef.Props.C03"],
-    "harness": [{"bin": "h_prim", "args": ["alloc"]}],
-    "rule": ("cases = random request sequences on the real pkg.AllocSizeChecker (sizes around RecordAllocLimit, 2^31, 2^32, "
-             "2^62, 2^63, MaxUint; products that overflow) replayed on the Lean model; hostile streams: see the h_codec "
-             "`hostile` mode and h_otlp when registered; non-trivial = at least one request was refused; distinct by draw"),
+    "harness": [{"bin": "h_prim", "args": ["alloc"]}, {"bin": "h_otlp", "args": ["hostile"]}],
+    "rule": ("cases = (i) random request sequences on the real pkg.AllocSizeChecker (sizes around RecordAllocLimit, 2^31, 2^32, "
+             "2^62, 2^63, MaxUint; products that overflow) replayed on the Lean model; (ii) the real pkg.ReadBufs.ReadFrom over "
+             "random column trees and hostile size tables (sibling columns each claiming the whole budget, sizes over the "
+             "limit, 2^32..2^64-1, tables shorter/longer than the tree, truncated data), outcome class and every allocated "
+             "column buffer replayed on Stef.Sizes.readFrom and checked directly against readLimit; (iii) h_codec `hostile`: "
+             "byte corruptions, inflated size fields, removed/duplicated ranges, arbitrary bytes and crafted sibling-size "
+             "tables against both readers with a 2 s watchdog and an allocation bound of 3x64 MiB + 1 MiB per KiB of input; "
+             "(iv) h_otlp `hostile`: well-formed STEF streams with values out of range for OTLP (unknown metric type / "
+             "temporality numbers, point value type not matching the metric type, exemplar ids of wrong length) and "
+             "corrupted valid streams through the STEF->OTLP converters (unsorted in both read modes, sorted) with a 5 s "
+             "watchdog; non-trivial = at least one request refused / a refused size table with two or more allocated columns / "
+             "an out-of-range record; distinct by draw"),
     "trusted_base": COMMON_TB + [
-        "Stef/Alloc.lean and Stef/Reader.lean are hand transcriptions (allocsizechecker.go; basereader.go, frame.go, "
-        "recordbuf.go at frame level) tied by correspondence",
+        "Stef/Alloc.lean, Stef/Reader.lean and Stef/Sizes.lean are hand transcriptions (allocsizechecker.go; basereader.go, "
+        "frame.go; recordbuf.go ReadBufs.ReadFrom / ReadSizesFrom / ReadDataFrom) tied by correspondence",
         "Go memory safety, stack depth and the decoder bodies are NOT modelled: covered only by hostile-input runs",
     ],
     "assumptions": ["bits.Add / bits.Mul as 64-bit carry / high-word arithmetic"],
     "level_text": ("PARTIAL. Theorems for all inputs on the modelled parts: frame_load_consumes_input (progress: no spinning), "
                    "frame_load_bounded (<= FrameSizeLimit whatever the size fields say), alloc_bound (granted requests of a "
-                   "record sum to <= RecordAllocLimit), alloc_counter_saturates. Panics / over-allocation inside decoders "
+                   "record sum to <= RecordAllocLimit), alloc_counter_saturates, frame_columns_alloc_bounded (size-table buffer "
+                   "plus all column buffers ReadBufs.ReadFrom allocates, on error paths too, <= readLimit for every column tree "
+                   "and input; model tied op-for-op to the real ReadFrom). Panics / over-allocation inside decoders "
                    "and converters are searched for by hostile-input runs against the real code, not proved absent."),
 }
 
